@@ -118,3 +118,23 @@ package ring
 //@   at before@slices.Sort: assert forall k uint32 :: cov[k] <==> own[k]
 //@   at exit: use revCovers(pre, r0)
 //@   modifies nothing
+//@
+//@ # ---- operations and instance health (C01, C02, C15) -------------------------------------
+//@ # The bit encoding of Operation is abstracted: the two predicates are uninterpreted pure functions
+//@ # (the properties are parametric in the operation).
+//@ func Operation.IsInstanceInStateHealthy
+//@   property C01 C02 C15
+//@   pure
+//@ func Operation.ShouldExtendReplicaSetOnState
+//@   property C01
+//@   pure
+//@
+//@ func InstanceDesc.IsHeartbeatHealthy
+//@   property C01 C02 C15
+//@   ensures result <==> ns(now) - i.Timestamp * 1000000000 <= heartbeatTimeout
+//@   pure
+//@
+//@ func InstanceDesc.IsHealthy
+//@   property C01 C02 C15
+//@   ensures result <==> (Operation.IsInstanceInStateHealthy(op, i.State) && ns(now) - i.Timestamp * 1000000000 <= heartbeatTimeout)
+//@   pure
